@@ -449,7 +449,7 @@ def primitive_unit(u, res):
                     pr = get_primitive(sc, np.linalg.inv(smat) @ _centring(pm))
                     built = True
                     same = all(sc.symbols[k] == pr.symbols[pr.p2p_map[pr.s2p_map[k]]] for k in range(len(sc)))
-                except RuntimeError:
+                except Exception:                       # any refusal counts; which exception type is raised is not part of the property
                     built, same = False, True
                 ok = (built and same) if pm in good else not built
                 why = ("valid centring %s rejected or species mixed" if pm in good else "centring %s mixes species but was built") % pm
